@@ -11,9 +11,9 @@ BT = {1: 33, 2: 17, 3: 6, 4: 4}
 
 def run(ctx):
     thorough = ctx.tier == "thorough"
-    js = [Job("numeric_O0", NUM, ["-O0", "-w", "-pthread"], [], [ctx.tier], timeout=1500),
-          Job("numeric_O2", NUM, ["-O2", "-w", "-pthread"], [], [ctx.tier], timeout=1500, distinct=False),
-          Job("numeric_O1_ubsan", NUM, ["-O1", "-w", "-pthread", "-fsanitize=undefined", "-fno-sanitize-recover=undefined"], [], ["quick"], timeout=1500, distinct=False)]
+    js = [Job("numeric_O0", NUM, ["-O0", "-w", "-pthread"], [], [ctx.tier], timeout=(900 if thorough else 240)),
+          Job("numeric_O2", NUM, ["-O2", "-w", "-pthread"], [], [ctx.tier], timeout=(900 if thorough else 240), distinct=False),
+          Job("numeric_O1_ubsan", NUM, ["-O1", "-w", "-pthread", "-fsanitize=undefined", "-fno-sanitize-recover=undefined"], [], ["quick"], timeout=240, distinct=False)]
     B = BT if thorough else BQ
     for layer, ns, extra in [("L_morton_port", [1, 2, 3, 4], []), ("L_morton_bmi", [1, 2, 3, 4], ["-mbmi2"]), ("L_hilbert", [2], [])]:
         for n in ns:
